@@ -671,7 +671,72 @@ fn build(cfg: &SCfg, main_pool: &[Vec<SOp>], child_pool: &[Vec<SOp>], children: 
     out
 }
 
+/// Programs whose complete trees are too large (>= 3 waiters with racing notifiers, ...): explored
+/// with a preemption bound (all schedules with <= b preemptions), soundness direction only.
+fn bounded_set(big: bool) -> Vec<Program<SyncFam>> {
+    let cvcfg = SCfg {
+        mutexes: 1,
+        condvars: 1,
+        barriers: vec![],
+        onces: 0,
+    };
+    let w = vec![SOp::Lock(0), SOp::Wait(0, 0), SOp::Unlock(0)];
+    let ww = vec![SOp::Lock(0), SOp::WaitWhile0(0, 0), SOp::Unlock(0)];
+    let setter = vec![SOp::Lock(0), SOp::Set(0, 1), SOp::Unlock(0), SOp::NotifyOne(0)];
+    let mut out = Vec::new();
+    // the epoch bookkeeping needs >= 3 waiters: two present at the first signal, a third arriving
+    // before the second
+    for mn in [
+        vec![SOp::NotifyOne(0), SOp::NotifyOne(0)],
+        vec![SOp::NotifyOne(0), SOp::NotifyOne(0), SOp::NotifyAll(0)],
+        vec![SOp::NotifyOne(0), SOp::NotifyOne(0), SOp::NotifyOne(0)],
+        vec![SOp::NotifyAll(0), SOp::NotifyOne(0)],
+    ] {
+        out.push(Program::fork_join(cvcfg.clone(), mn.clone(), vec![w.clone(), w.clone(), w.clone()]));
+        if big {
+            out.push(Program::fork_join(cvcfg.clone(), mn.clone(), vec![w.clone(), w.clone(), w.clone(), w.clone()]));
+        }
+        out.push(Program::fork_join(cvcfg.clone(), mn.clone(), vec![w.clone(), w.clone(), ww.clone()]));
+    }
+    // notifiers in different threads
+    if big {
+        out.push(Program::fork_join(cvcfg.clone(), vec![], vec![w.clone(), w.clone(), w.clone(), vec![SOp::NotifyOne(0)], vec![SOp::NotifyOne(0)]]));
+    }
+    out.push(Program::fork_join(cvcfg.clone(), vec![], vec![ww.clone(), ww.clone(), setter.clone(), setter.clone()]));
+    out.push(Program::fork_join(cvcfg.clone(), vec![SOp::NotifyOne(0)], vec![w.clone(), w.clone(), vec![SOp::NotifyOne(0)], vec![SOp::NotifyAll(0)]]));
+    // reused barrier with 3 and 4 parties
+    for (bound, parties) in if big { vec![(3usize, 3usize), (2, 4), (3, 4), (4, 4)] } else { vec![(3usize, 3usize), (2, 4)] } {
+        let bcfg = SCfg {
+            mutexes: 0,
+            condvars: 0,
+            barriers: vec![bound],
+            onces: 0,
+        };
+        let b2 = vec![SOp::BarrierWait(0), SOp::BarrierWait(0)];
+        out.push(Program::fork_join(bcfg.clone(), b2.clone(), (0..parties - 1).map(|_| b2.clone()).collect()));
+    }
+    // racing call_once with 4 callers, nested in both orders
+    let ocfg = SCfg {
+        mutexes: 0,
+        condvars: 0,
+        barriers: vec![],
+        onces: 2,
+    };
+    out.push(Program::fork_join(
+        ocfg.clone(),
+        vec![SOp::OnceIsCompleted(0)],
+        vec![vec![SOp::OnceNested(0, 1)], vec![SOp::OnceCall(1), SOp::OnceCall(0)], vec![SOp::OnceCall(0), SOp::OnceIsCompleted(1)], vec![SOp::OnceCall(1)]],
+    ));
+    out
+}
+
 pub fn program_set(set: &str) -> Vec<Program<SyncFam>> {
+    if set == "bounded" {
+        return bounded_set(false);
+    }
+    if set == "bounded-big" {
+        return bounded_set(true);
+    }
     let thorough = set == "thorough";
     let mut out: Vec<Program<SyncFam>> = Vec::new();
     let none: Vec<Vec<SOp>> = vec![vec![]];
@@ -722,7 +787,9 @@ pub fn program_set(set: &str) -> Vec<Program<SyncFam>> {
         let pool = vec![w1.clone(), w2.clone()];
         let mainp = vec![vec![], w1.clone(), w2.clone()];
         for c in 1..=(if thorough { 4 } else { 3 }) {
-            out.extend(build(&bcfg, &mainp, &pool, c, 8));
+            // a barrier of bound 1 never blocks: 4 threads x 2 waits is a 10^5-leaf tree
+            let max_size = if !thorough && bound == 1 && c == 3 { 5 } else { 8 };
+            out.extend(build(&bcfg, &mainp, &pool, c, max_size));
         }
     }
     // two barriers, crossing order
